@@ -103,6 +103,12 @@ CHECKS = {
             "About 1 900 boundary cases over all Result-returning constructors and protocol operations of Prio3, Prio2, Poplar1, the FLP types and DP; each must "
             "behave as ApiDomain.tla says: Err cases return an error (never a panic, overflow, abort or unusable instance), Ok cases yield an instance that works.",
             "Lattice, not all of usize; allocation-heavy follow-ups only within the memory budget."),
+    "C19": ("DESIGN.md#c19--prio2",
+            "TLA+ spec of the Prio v2 proof (Prio2.tla); TLC computes exact accept sets over all query points on GF(17)/GF(193); trace validation of the field-"
+            "generic client/server code over tiny fields (hook H4) and of the real Prio2 (outcomes under the k-key rule, sums, codec, query-point loop witnesses)",
+            "Exact accept-set model checking of completeness/soundness/tamper-evidence for small lengths; every proof element and verification message of the "
+            "generic code recomputed by TLC on three tiny fields; real Prio2 bound at outcome level for lengths up to 257 (quick) / 65535 (thorough).",
+            "Tiny-field monomorphizations; k-key rule on the 32-bit field; f0/g0 taken from the observed proof."),
 }
 
 NOT_YET = {}
